@@ -4,7 +4,9 @@ C16 — estimators are equivariant, moment-exact and consistent; minima mirror m
 Tie: translator (closed forms of pwm / pwm2 / msm, skewness equation) + Float correspondence of `weibull.mlj`, the
 closed-form estimators, and — for the iterative Gumbel estimators — of the very callables handed to fsolve / leastsq
 (captured by wrapping the solvers) with the model's estimating equations / residual vectors.
-Search: equivariance, moment exactness, recovery of exact large samples (measurement), minima = mirrored maxima.
+Search: equivariance, moment exactness, recovery of exact large samples (measurement), minima = mirrored maxima; the same
+clauses on samples given in other representations (integer dtypes, lists, views) and after every step of a history of fits
+(re-used GumbelMin object, sequences of class-level / module-level calls).
 """
 import math
 
@@ -18,6 +20,10 @@ USES_TRANSLATOR = True
 ANCHOR_PREFIX = ("wb_pwm", "wb_msm", "gu_", "gm_", "ecdf_median", "wb_mean", "wb_std", "wb_skew")
 RULE = ("seeded samples (n in 8..400) drawn from Weibull / Gumbel / GumbelMin with random parameters, x affine maps a in "
         "{0.5,2,3.7,…}, b in [-50,50]; exact quantile samples of 10^4 points for the recovery measurement; "
+        "the same samples in other representations (integer-valued in units of scale/8 as int64/int32/int16 arrays and lists of "
+        "Python ints, lists / tuples of floats, non-contiguous views) through the module-level and the class entry; histories "
+        "of 7-10 fits (one GumbelMin object: sample via constructor / fit(data=) / .data assignment / kept, methods mixed; "
+        "sequences of Weibull.fit / Gumbel.fit / module calls) with the clauses evaluated after every step; corpus cases first; "
         "non-trivial = every sample (all have distinct values); distinct by (distribution, parameters, n, seed)")
 
 
@@ -39,11 +45,230 @@ def capture(module, name):
     return rec, lambda: setattr(module, name, orig)
 
 
+def qmods():
+    from qats.stats import weibull, gumbel, gumbelmin
+    return dict(mod=dict(wb=weibull, gu=gumbel, gm=gumbelmin),
+                cls=dict(wb=weibull.Weibull, gu=gumbel.Gumbel, gm=gumbelmin.GumbelMin))
+
+
+def make_sample(Q, info):
+    cls = Q["cls"][info["dist"]]
+    d = cls(info["loc"], info["scale"], info.get("shape", 2.0)) if info["dist"] == "wb" else cls(info["loc"], info["scale"])
+    return d.rnd(size=info["n"], seed=info["seed"])
+
+
+METHODS = {"wb": ("msm", "pwm", "pwm2"), "gu": ("msm", "pwm", "lse", "mle"), "gm": ("msm", "lse", "mle")}
+A_POOL = [0.5, 2.0, 4.0, 3.7, 0.125, 16.0]
+
+
+def layout(kind, name):
+    return ("scale", "shape") if name == "pwm2" else ("loc", "scale", "shape") if kind == "wb" else ("loc", "scale")
+
+
+def fit_via(Q, kind, name, data, entry):
+    """one fit through the module-level estimator or through the class (`Weibull.fit`, `Gumbel.fit`, `GumbelMin().fit`);
+    returns the parameters in the order of layout(kind, name)"""
+    with np.errstate(all="ignore"):
+        if entry == "module":
+            return tuple(float(v) for v in getattr(Q["mod"][kind], name)(data))
+        if kind == "gm":
+            g = Q["cls"]["gm"]()
+            g.fit(data=data, method=name)
+            return float(g.location), float(g.scale)
+        o = Q["cls"][kind].fit(data, method=name)
+        p = tuple(float(v) for v in o.params)
+        return p[1:] if name == "pwm2" else p
+
+
+def tol_of(name):
+    return 1e-7 if name in ("msm", "pwm", "pwm2") else 2e-4
+
+
+def transformed(kind, name, p, a, b):
+    """parameters the property demands for the sample a*x+b, given the fit p of x"""
+    lay = layout(kind, name)
+    return tuple(a * v + b if c == "loc" else a * v if c == "scale" else v for c, v in zip(lay, p))
+
+
+def same_fit(kind, name, exp, got, tol):
+    lay = layout(kind, name)
+    if len(got) != len(exp) or not all(math.isfinite(v) for v in got):
+        return False
+    sc = abs(exp[lay.index("scale")])
+    for c, e, g in zip(lay, exp, got):
+        lim = tol * (sc + abs(e)) if c == "loc" else tol * sc if c == "scale" else max(tol, 1e-6) * abs(e)
+        if not abs(g - e) <= lim:
+            return False
+    return True
+
+
+def container_of(lab, v):
+    if lab in ("int64", "int32", "int16"):
+        return np.asarray(v).astype(lab)
+    if lab == "list-int":
+        return [int(t) for t in v]
+    if lab == "list-float":
+        return [float(t) for t in v]
+    if lab == "tuple-float":
+        return tuple(float(t) for t in v)
+    if lab == "reversed-view":
+        return np.array(v, dtype=float)[::-1]
+    if lab == "strided-view":
+        buf = np.zeros(2 * len(v))
+        buf[::2] = v
+        return buf[::2]
+    raise ValueError(lab)
+
+
+def eval_container(Q, inp):
+    """the sample given in another representation (integer dtype, list / tuple of Python numbers, non-contiguous view): the
+    fit equals the fit of the same values as a float64 array (x -> 1*x+0), and equivariance holds starting from that
+    representation.  Returns [(oracle, expected, observed)], None when the sample is outside the estimator's domain."""
+    kind, name, lab, entry = inp["dist"], inp["method"], inp["container"], inp["entry"]
+    x = make_sample(Q, inp)
+    v = np.round(x / inp["quantum"]) if inp.get("quantum") else x
+    c = container_of(lab, v)
+    try:
+        ref = fit_via(Q, kind, name, np.array(c, dtype=float), entry)      # same values, same order, contiguous float64
+    except Exception:
+        return None
+    if not all(math.isfinite(t) for t in ref):
+        return None
+    out, tol = [], tol_of(name)
+    try:
+        got = fit_via(Q, kind, name, c, entry)
+    except Exception as e:
+        return [("estimator must not raise on a valid sample (%s, given as %s)" % (name, lab), list(ref), type(e).__name__)]
+    if not same_fit(kind, name, ref, got, tol):
+        out.append(("fit(1*x+0) == fit(x): sample given as %s is fitted like the same values as float64 array (method %s, %s entry)"
+                    % (lab, name, entry), list(ref), list(got)))
+    if isinstance(c, np.ndarray):
+        a, b = inp["a"], inp["b"]
+        y = a * c + b
+        try:
+            q = fit_via(Q, kind, name, y, entry)
+        except Exception as e:
+            return out + [("estimator must not raise on a valid sample (fit of a*x+b, x given as %s)" % lab, list(ref), type(e).__name__)]
+        exp = transformed(kind, name, got, a, b)
+        if not same_fit(kind, name, exp, q, tol):
+            out.append(("fit(a*x+b) == (a*loc+b, a*scale[, shape]) for method %s, x given as %s" % (name, lab), list(exp), list(q)))
+    return out
+
+
+def eval_history(Q, inp):
+    """a sequence of fits: on ONE GumbelMin object (sample passed to the constructor / to fit / assigned to .data, fitted again
+    with the same or another method), or a sequence of Weibull.fit / Gumbel.fit / module-level calls.  After every step the
+    parameters must be the mirror image of the Gumbel fit of the negated CURRENT sample and the affine image of the first fit
+    with that method; objects returned earlier keep their parameters.  Returns [(oracle, expected, observed)]."""
+    kind = inp["dist"]
+    x = make_sample(Q, inp)
+    out, base, kept = [], {}, []
+    g = None
+    for i, st in enumerate(inp["steps"]):
+        name, a, b, via = st["method"], st["a"], st["b"], st["via"]
+        tol = tol_of(name)
+        y = a * x + b
+        try:
+            fresh = fit_via(Q, kind, name, np.array(y), "class")
+        except Exception:
+            fresh = None                                          # outside the estimator's domain
+        try:
+            with np.errstate(all="ignore"):
+                if kind == "gm":
+                    if via == "new":
+                        g = Q["cls"]["gm"](data=y)
+                        g.fit(method=name)
+                    elif via == "new-arg":
+                        g = Q["cls"]["gm"]()
+                        g.fit(data=y, method=name)
+                    elif via == "attr":
+                        g.data = y
+                        g.fit(method=name)
+                    elif via == "arg":
+                        g.fit(data=y, method=name)
+                    else:                                         # "keep": fit again on the sample the object holds
+                        g.fit(method=name)
+                    got = (float(g.location), float(g.scale))
+                elif via == "class":
+                    o = Q["cls"][kind].fit(y, method=name)
+                    got = tuple(float(t) for t in o.params)
+                    kept.append((i, name, o, got))
+                    got = got[1:] if name == "pwm2" else got
+                else:
+                    got = fit_via(Q, kind, name, y, "module")
+        except Exception as e:
+            if fresh is not None:
+                out.append(("step %d (%s, %s): the estimator must not raise on a sample a fresh fit accepts" % (i, name, via),
+                            list(fresh), type(e).__name__))
+            if kind == "gm":
+                break
+            continue
+        if fresh is None or not all(math.isfinite(t) for t in fresh):
+            continue
+        if name not in base:
+            base[name] = (a, b, got)
+        else:
+            a0, b0, p0 = base[name]
+            r = a / a0
+            exp = transformed(kind, name, p0, r, b - r * b0)
+            if not same_fit(kind, name, exp, got, tol):
+                out.append(("step %d: fit(a*x+b) == (a*loc+b, a*scale[, shape]) for method %s (%s; earlier fits in the same history)"
+                            % (i, name, "same GumbelMin object, sample via " + via if kind == "gm" else via + " entry"),
+                            list(exp), list(got)))
+        if kind in ("gu", "gm") and name in ("msm", "lse", "mle"):
+            try:
+                other = fit_via(Q, "gu" if kind == "gm" else "gm", name, -np.array(y), "class")
+            except Exception:
+                other = None
+            if other is not None:
+                exp = (-other[0], other[1])
+                if not same_fit(kind, name, exp, got, 1e-9 if name == "msm" else tol):
+                    out.append(("step %d: the %s fit of the current sample is the mirror of the %s fit of the negated sample (%s, %s)"
+                                % (i, "GumbelMin" if kind == "gm" else "Gumbel", "Gumbel" if kind == "gm" else "GumbelMin", name,
+                                   "same object, sample via " + via if kind == "gm" else via + " entry"), list(exp), list(got)))
+    for i, name, o, p in kept:
+        now = tuple(float(t) for t in o.params)
+        if now != p:
+            out.append(("the object returned by step %d (%s) keeps its parameters when other samples are fitted later" % (i, name),
+                        list(p), list(now)))
+    return out
+
+
+def gen_history(rng, kind, info, positive):
+    """random history for one sample; the first step of every method is recorded as that method's reference"""
+    sc = info["scale"]
+    names = [m for m in METHODS[kind] if m != "pwm2" or positive]
+    steps, cur = [], (1.0, 0.0)
+    for i in range(rng.choice([3, 4, 6])):
+        name = rng.choice(names)
+        if kind == "gm":
+            via = rng.choice(["new", "new-arg"]) if i == 0 else rng.choice(["attr", "attr", "arg", "keep", "keep"])
+        else:
+            via = rng.choice(["class", "class", "module"])
+        if via != "keep":                       # "keep": the object is fitted again to the sample it already holds
+            if i == 0 or rng.random() < 0.25:
+                cur = (1.0, 0.0)
+            else:
+                a = rng.choice(A_POOL)
+                cur = (a, 0.0 if name == "pwm2" else float(round(rng.uniform(-10, 10) * a * sc)))
+        steps.append(dict(method=name, a=cur[0], b=cur[1], via=via))
+    # the same method twice in a row on different samples / the same sample, and a return to the first sample at the end
+    m = rng.choice([n for n in names if n != "pwm2"])
+    a = rng.choice(A_POOL)
+    b = float(round(rng.uniform(-10, 10) * a * sc))
+    tail = [dict(method=m, a=1.0, b=0.0, via="attr" if kind == "gm" else "class"),
+            dict(method=m, a=a, b=b, via="attr" if kind == "gm" else "class"),
+            dict(method=m, a=a, b=b, via="keep" if kind == "gm" else "module"),
+            dict(method=m, a=1.0, b=0.0, via="arg" if kind == "gm" else "class")]
+    return steps + tail
+
+
 def run(chk):
     from qats.stats import weibull, gumbel, gumbelmin
     from qats.stats.weibull import Weibull
     from qats.stats.gumbel import Gumbel
     from qats.stats.gumbelmin import GumbelMin
+    Q = qmods()
     chk.extra["rule"] = RULE
     chk.partial += ["solver convergence (fsolve / leastsq / brentq return a root / minimiser of the function they are given) is "
                     "assumed; checked by evaluating the residual at the returned point",
@@ -58,14 +283,13 @@ def run(chk):
         seed = rng.randint(0, 10 ** 6)
         loc = round(rng.uniform(-20, 20), 2)
         scale = round(10 ** rng.uniform(-0.5, 1.3), 3)
+        info = dict(dist=kind, loc=loc, scale=scale, n=n, seed=seed)
         if kind == "wb":
-            d = Weibull(max(loc, 0.0) if rng.random() < 0.5 else loc, scale, rng.choice([1.0, 1.5, 2.0, 3.0]))
-        elif kind == "gu":
-            d = Gumbel(loc, scale)
-        else:
-            d = GumbelMin(loc, scale)
-        x = d.rnd(size=n, seed=seed)
-        samples.append((kind, x, dict(dist=kind, loc=loc, scale=scale, n=n, seed=seed)))
+            if rng.random() < 0.5:
+                info["loc"] = max(loc, 0.0)
+            info["shape"] = rng.choice([1.0, 1.5, 2.0, 3.0])
+        x = make_sample(Q, info)
+        samples.append((kind, x, info))
     # ---- correspondence of the closed forms ------------------------------------------------------------------------------
     lines, meta = [], []
     for kind, x, info in samples:
@@ -280,6 +504,53 @@ def run(chk):
                         and (k == 2 or abs(est[2] - true[2]) <= 3 * tol * true[2])):
                     chk.fail("every method recovers the parameters of a large exact sample (10^4 quantiles, 3-9 %%)",
                              dict(dist=kind, params=true, method=name), list(true), [float(v) for v in est], method=name)
+    # ---- the same sample in other representations; histories of fits on one object / sequences of calls ------------------------
+    def judge(ev, inp, stream):
+        try:
+            res = ev(Q, inp)
+        except Exception as e:                                     # never a harness crash
+            res = [("evaluating the clauses must not raise (%s)" % stream, "fit", "%s: %s" % (type(e).__name__, e))]
+        if res is None:
+            chk.dist(stream + ":outside-estimator-domain")
+            return
+        chk.count(stream)
+        for oracle, exp, obs in res:
+            chk.fail(oracle, inp, exp, obs, method=inp.get("method"))
+
+    for c in core.load_corpus("C16"):
+        chk.dist("corpus." + c.get("case", "?"))
+        if c.get("case") == "container":
+            judge(eval_container, c, "container.corpus")
+        elif c.get("case") == "history":
+            judge(eval_history, c, "history.corpus")
+    labs = ["int64", "int32", "int16", "list-int", "list-float", "tuple-float", "reversed-view", "strided-view"]
+    for si, (kind, x, info) in enumerate(samples):
+        quantum = info["scale"] / 8.0                              # integer-valued samples: x in units of scale/8 (many ties)
+        v = np.round(x / quantum)
+        positive = bool(np.all(v > 0))
+        for name in METHODS[kind]:
+            if name == "pwm2" and not positive:
+                continue
+            iterative = name in ("lse", "mle")
+            # all representations for the closed forms (quick and thorough); a rotating subset for the iterative ones in quick
+            use = labs if not (iterative and chk.quick) else [labs[(si + j) % 4] for j in (0, 2)] + [rng.choice(labs[4:])]
+            for lab in use:
+                a = rng.choice(A_POOL + [2, 3])                    # integer a, b keep an integer array integer
+                # shift by at most ~10 scale units of the transformed sample (see above)
+                b = 0.0 if name == "pwm2" else float(round(rng.uniform(-10, 10) * a * (8 if "int" in lab else info["scale"])))
+                if isinstance(a, int):
+                    b = int(b)
+                    if lab == "int16" and (a * float(np.abs(v).max()) + abs(b)) >= 32000:
+                        a, b = 2.0, float(b)
+                entry = "class" if lab.startswith(("list", "tuple")) else rng.choice(["module", "class"])
+                inp = dict(info, case="container", container=lab, method=name, entry=entry, a=a, b=b,
+                           quantum=quantum if "int" in lab else None)
+                chk.dist("container." + lab)
+                judge(eval_container, inp, "container.%s.%s" % (kind, name))
+        for _ in range(1 if chk.quick else 2):
+            inp = dict(info, case="history", steps=gen_history(rng, kind, info, bool(np.all(x > 0))))
+            chk.dist("history.%s.len%d" % (kind, len(inp["steps"])))
+            judge(eval_history, inp, "history." + kind)
     chk.sample(samples[0][2])
 
 
@@ -289,11 +560,17 @@ def replay(rp):
     from qats.stats.gumbel import Gumbel
     from qats.stats.gumbelmin import GumbelMin
     inp = rp["input"]
+    if inp.get("case") in ("container", "history"):
+        res = (eval_container if inp["case"] == "container" else eval_history)(qmods(), inp)
+        for oracle, exp, obs in res or []:
+            print("FAILS: %s\n   expected %s\n   observed %s" % (oracle, exp, obs))
+        print("replay: %d failing clause(s)" % len(res or []))
+        return 1 if res else 0
     if "seed" not in inp:
         print("replay of recovery measurement: re-run ./check C16 thorough")
         return 1
     cls = dict(wb=Weibull, gu=Gumbel, gm=GumbelMin)[inp["dist"]]
-    d = cls(inp["loc"], inp["scale"], 2.0) if inp["dist"] == "wb" else cls(inp["loc"], inp["scale"])
+    d = cls(inp["loc"], inp["scale"], inp.get("shape", 2.0)) if inp["dist"] == "wb" else cls(inp["loc"], inp["scale"])
     x = d.rnd(size=inp["n"], seed=inp["seed"])
     name = inp.get("method", "msm")
     mod = dict(wb=weibull, gu=gumbel, gm=gumbelmin)[inp["dist"]]
